@@ -44,6 +44,9 @@ def build_sandbox(scratch):
     mk(j(b"outdir", b"o1.txt"), b"OUTSIDE:o1")
     mk(j(b"outdir", b"index.html"), b"OUTSIDE:oidx")
     mk(j(b"outdir", b"deep", b"o2.txt"), b"OUTSIDE:o2")
+    mk(j(b"top.txt"), b"OUTSIDE:top-unlinked")          # no symlink anywhere points at these three
+    mk(j(b"unlinked", b"u.txt"), b"OUTSIDE:unlinked-u")
+    mk(j(b"al1x", b"leak.txt"), b"OUTSIDE:al1x-leak")   # sibling whose name has an alias target's name as string prefix
     mk(j(b"rootX", b"rx.txt"), b"OUTSIDE:rx")
     mk(j(b"rootX", b"index.html"), b"OUTSIDE:rxidx")
     R = j(b"root")
@@ -82,7 +85,7 @@ def build_sandbox(scratch):
     os.symlink(b"nowhere", r(b"ln_dangling"))
     os.symlink(b"ln_loop", r(b"ln_loop"))
     os.symlink(b"..", r(b"sub", b"ln_up"))
-    os.symlink(b"../..", r(b"sub", b"ln_upup"))
+    os.symlink(b"../../outdir", r(b"sub", b"ln_upup"))   # climbs out, but only into outdir: the tree top stays unreachable
     os.mkfifo(r(b"fifo"))
     os.makedirs(r(b"sockdir"))
     cwd = os.getcwd()
@@ -129,7 +132,7 @@ def cfg_line(sym, lst, asy, root, aliases, index=IDX):
 NAMES = [b"a.txt", b"sub", b"sub2", b"inner", b"b.txt", b"c.txt", b"index.html", b".hidden", b".hdir", b"h.txt", b".dot",
          b"al", b"alX", b"ac", b"x.txt", b"y.txt", b"w.txt", b"deep", b"d.txt", b"ln_in", b"ln_out", b"ln_file_out", b"ln_file_in",
          b"ln_abs_in", b"ln_rootX", b"ln_al1", b"ln_dangling", b"ln_loop", b"ln_up", b"ln_upup", b"o1.txt", b"o2.txt",
-         b"secret.txt", b"outdir", b"rootX", b"rx.txt", b"root", b"al1", b"al2", b"t1.txt", b"t2.txt", b"u.txt", b"v.txt",
+         b"secret.txt", b"outdir", b"rootX", b"rx.txt", b"root", b"al1", b"al2", b"top.txt", b"unlinked", b"u.txt", b"al1x", b"leak.txt", b"t1.txt", b"t2.txt", b"u.txt", b"v.txt",
          b"other", b"x", b"ln_root", b"ln_secret", b"fifo", b"sock", b"sockdir", b"empty", b"idxdir", b"q.txt", b"...", b"..x",
          b"t.txt", b"z.txt", b"we<ird>&'\"n.txt", b"sp ace.txt", b"\xff\xfe.bin", b"uni\xc3\xa9.txt", b"a+b%41.txt", b"<b>dir",
          b"in<.txt", b"amp&lt;.txt", b"q?x.txt", b"tab\tnl.txt", b"nosuch"]
@@ -215,7 +218,7 @@ def encode_target(rng, segs, flavour):
 MALFORMED = [b"/%", b"/%4", b"/%zz/a.txt", b"/a.txt%", b"/%2", b"/sub%2", b"/a%2etxt", b"/+", b"/sp+ace.txt", b"/sp%20ace.txt",
              b"/%2e%2e/%2e%2e/secret.txt", b"/..%2fsecret.txt", b"/..%2f..%2fsecret.txt", b"/%2e%2e%2fsecret.txt", b"/sub/..%2f..%2fsecret.txt",
              b"/al../secret.txt", b"/al/../../secret.txt", b"/al/..%00/", b"/..%00/", b"/..%00", b"/sub/..%00/", b"/%00", b"/a.txt%00.html",
-             b"/ln_out/o1.txt", b"/ln_out/", b"/ln_out", b"/ln_file_out", b"/ln_rootX/rx.txt", b"/ln_rootX/", b"/ln_rootX", b"/sub/ln_upup/secret.txt",
+             b"/ln_out/o1.txt", b"/ln_out/", b"/ln_out", b"/ln_file_out", b"/ln_rootX/rx.txt", b"/ln_rootX/", b"/ln_rootX", b"/sub/ln_upup/o1.txt", b"/sub/ln_upup/../top.txt",
              b"/sub/ln_upup/", b"/sub/ln_up/a.txt", b"/ln_al1/t1.txt", b"/al/ln_root/a.txt", b"/al/ln_secret", b"/al/t1.txt", b"/al", b"/al/", b"/alX/y.txt",
              b"/alX", b"/alX/", b"/al/deep/v.txt", b"/al/deep/d.txt", b"/al/deep", b"/al/deep/", b"/other/x/t2.txt", b"/other/x", b"/other/x/",
              b"/other", b"/sub/t1.txt", b"/sub/b.txt", b"/sub", b"/sub/", b"/", b"//", b"/.", b"/..", b"/../", b"/./", b"/index.html", b"/sub2", b"/sub2/",
@@ -224,7 +227,8 @@ MALFORMED = [b"/%", b"/%4", b"/%zz/a.txt", b"/a.txt%", b"/%2", b"/sub%2", b"/a%2
              b"/a.txt/..", b"/a.txt/../a.txt", b"/ln_dangling", b"/ln_loop", b"/ln_loop/", b"/%3cb%3edir/", b"/%3cb%3edir", b"/<b>dir/", b"/.../", b"/...",
              b"/..x/", b"/..x/t.txt", b"/%ff%fe.bin", b"/\xff\xfe.bin", b"/a.txt?/../../secret.txt", b"/?", b"/sub?x", b"/we%3Cird%3E%26%27%22n.txt",
              b"/q%3fx.txt", b"/tab%09nl.txt", b"/ln_abs_in/", b"/ln_abs_in/z.txt", b"/ln_in/b.txt", b"/ln_in", b"/ln_file_in", b"/root/a.txt", b"/../root/a.txt",
-             b"/../rootX/rx.txt", b"/..../", b"/sub/.../", b"/" + b"a/" * 3000, b"/" + b"../" * 2000 + b"secret.txt", b"/" + b"sub/ln_up/" * 400 + b"a.txt",
+             b"/../rootX/rx.txt", b"/..../", b"/sub/.../", b"/../top.txt", b"/../unlinked/u.txt", b"/../unlinked/", b"/al/x/leak.txt", b"/al/../al1x/leak.txt",
+             b"/%2e%2e/top.txt", b"/sub/../../top.txt", b"/al/%2e%2e/%2e%2e/top.txt", b"/" + b"a/" * 3000, b"/" + b"../" * 2000 + b"secret.txt", b"/" + b"sub/ln_up/" * 400 + b"a.txt",
              b"/" + b"x" * 300, b"/sub/" + b"y" * 5000]
 
 
@@ -353,7 +357,16 @@ def main():
         "no file-system change between realpath/stat and open (TOCTOU is out of reach)",
         "only_regular_files_streamed_posix: stat reports one of the POSIX types and never S_IFLNK; opening a socket for reading fails",
     ]
-    c.translate("c13.py")
+    gen = os.path.join(LEAN, "Cppcms", "C13", "Gen.lean")
+    ref = os.path.join(LEAN, "Cppcms", "C13", "Gen.reference")
+    if not c.translate("c13.py"):
+        # the source no longer has the shape the extractor understands (already recorded as a broken tie):
+        # go on against the reference model (generated from the tree this check was developed on), not
+        # against whatever an earlier run left in Gen.lean
+        shutil.copyfile(ref, gen)
+        c.log("translator failed: Gen.lean reset to Gen.reference for the correspondence/search stages")
+    elif open(gen).read() != open(ref).read():
+        c.log("note: regenerated Gen.lean differs from Gen.reference (the source's constants/operators changed)")
     proved = c.prove(["Cppcms.C13.Props"], OBLIGATIONS, exe="c13_model")
     if thorough and proved:
         c.leanchecker(["Cppcms.C13.Props"])
@@ -368,9 +381,12 @@ def main():
     T = sb["T"]
     markers = all_files(T)
     ASETS = alias_sets(sb)
-    viol = []
+    viol = []      # (what, replay dict) of the per-configuration streams, emitted at the end
+    unit_viol = []  # same for the norm / prefix streams
 
     def jrun(lines):
+        if not lines:
+            return []
         rc, out, err = c.run_lines(model, lines)
         if rc != 0 or len(out) != len(lines):
             c.broke("judge driver", f"rc={rc} {err[-500:]}")
@@ -405,9 +421,9 @@ def main():
         j = jrun([f"J norm {o}" if re.fullmatch(r"[0-9a-f]+|-", o) else "J bad" for o in out_i])
         for k, v in enumerate(j):
             if v != "1" and k < len(out_i):
-                c.violation("normalize_path output is not canonical (has an empty/'.'/'..' component or is not absolute)",
-                            {"stream": "norm", "case": cases[k], "impl_output": out_i[k], "model_output": out_m[k] if k < len(out_m) else None})
-        if diffs and not c.violations:
+                unit_viol.append(("normalize_path output is not canonical (has an empty/'.'/'..' component or is not absolute)",
+                                  {"stream": "norm", "case": cases[k], "impl_output": out_i[k], "model_output": out_m[k] if k < len(out_m) else None}))
+        if diffs and not c.violations and not unit_viol:
             c.broke("correspondence stream norm", f"{len(diffs)} differing cases; first: {diffs[0][1]} impl={diffs[0][2]} model={diffs[0][3]}")
         c.samples.append({"case": cases[min(2, len(cases) - 1)], "impl": out_i[min(2, len(out_i) - 1)] if out_i else None})
         if replay:
@@ -428,9 +444,9 @@ def main():
         j = jrun([f"J prefix {cs.split()[1]} {cs.split()[2]} {o}" for cs, o in zip(cases, out_i)])
         for k, v in enumerate(j):
             if v != "1":
-                c.violation("is_file_prefix disagrees with component-wise prefix on canonical paths",
-                            {"stream": "prefix", "case": cases[k], "impl_output": out_i[k]})
-        if diffs and not c.violations:
+                unit_viol.append(("is_file_prefix disagrees with component-wise prefix on canonical paths",
+                                  {"stream": "prefix", "case": cases[k], "impl_output": out_i[k]}))
+        if diffs and not c.violations and not unit_viol:
             c.broke("correspondence stream prefix", f"{len(diffs)} differing cases; first: {diffs[0][1]} impl={diffs[0][2]} model={diffs[0][3]}")
         if replay:
             print("case :", cases[0]); print("impl :", out_i[:1]); print("model:", out_m[:1])
@@ -597,8 +613,21 @@ def main():
             for i in range(1, len(cases)):
                 print("case :", " ".join(cases[i].split()[:2])); print("impl :", out_raw[i] if i < len(out_raw) else None)
                 print("model:", out_mr[i] if i < len(out_mr) else None)
-    for what, rp in viol[:20]:
-        c.violation(what, rp)
+    # most telling first: end-to-end replies that leak something, then the unit-level predicates
+    def prio(w):
+        w = w[0]
+        return 0 if "served" in w or "listing of a directory outside" in w else 1 if "listing" in w else 2
+    allv = sorted(viol, key=prio) + unit_viol
+    counts = {}
+    for what, rp in allv:
+        counts[what] = counts.get(what, 0) + 1
+    for what, n in counts.items():
+        c.log(f"judge: {n} x {what}")
+    seen_what = {}
+    for what, rp in allv:
+        if seen_what.get(what, 0) < 4:       # a few witnesses per kind of failure
+            seen_what[what] = seen_what.get(what, 0) + 1
+            c.violation(what, rp)
     c.extra_cov["outcome_distribution"] = dist
     c.extra_cov["configurations_run"] = len(cfgs)
     c.finish()
